@@ -196,7 +196,7 @@ def runHoldsRt (caseToks obsToks : List String) : String :=
   match caseToks with
   | "rt" :: rest =>
     match parseRt rest, parseObs obsToks with
-    | some c, some o => boolStr (holds c.pkts o)
+    | some c, some o => boolStr (holdsSeq c.codec c.pkts o)   -- = `holds` unless a packet carries the rejected flag
     | _, _ => "false"      -- unparsable observation (panic, timeout, …) never satisfies the property
   | _ => "bad-case"
 
